@@ -19,6 +19,7 @@ import (
 )
 
 func (m *MTProto) sendPacket(request tl.Object, expectedTypes ...reflect.Type) (chan tl.Object, error) {
+	verifPoint("send.enter", 0)
 	msg, err := tl.Marshal(request)
 	if err != nil {
 		return nil, errors.Wrap(err, "encoding request message")
@@ -28,6 +29,7 @@ func (m *MTProto) sendPacket(request tl.Object, expectedTypes ...reflect.Type) (
 		data  messages.Common
 		msgID = utils.GenerateMessageId()
 	)
+	verifPoint("send.id", msgID)
 
 	// adding types for parser if required
 	if len(expectedTypes) > 0 {
@@ -58,6 +60,7 @@ func (m *MTProto) sendPacket(request tl.Object, expectedTypes ...reflect.Type) (
 	// must write synchroniously, cuz seqno must be upper each request
 	m.seqNoMutex.Lock()
 	defer m.seqNoMutex.Unlock()
+	verifPoint("send.locked", msgID)
 
 	err = m.transport.WriteMsg(data, MessageRequireToAck(request))
 	if err != nil {
@@ -81,7 +84,9 @@ func (m *MTProto) writeRPCResponse(msgID int, data tl.Object) error {
 		return errs.NotFound("msgID", strconv.Itoa(msgID))
 	}
 
+	verifPoint("rpc.deliver.before", int64(msgID))
 	v <- data
+	verifPoint("rpc.deliver.after", int64(msgID))
 
 	m.responseChannels.Delete(msgID)
 	m.expectedTypes.Delete(msgID)
